@@ -605,6 +605,28 @@ func (s *Sim) run() {
 				s.park.releaseAll()
 				synctest.Wait()
 				if s.park.isParked("bq.beforePut") {
+					// Two blocks sit in the queue, unwritten, and the syncer is stopped in front of them. Whatever the
+					// ledger CONFIRMS as durable now (Ledger.Wait) must survive a crash at this very instant.
+					confirmed := false
+					select {
+					case <-s.led.Wait(s.latest):
+						confirmed = true
+					default:
+						s.stat("durability_not_confirmed_with_backlog", 1)
+					}
+					if confirmed {
+						s.stat("durability_confirmed_with_backlog", 1)
+						s.acked = s.latest
+						s.park.disarmAll()
+						s.crashParked("bq.beforePut(backlog)")
+						if s.viol != nil || s.harness != "" {
+							break
+						}
+						for j := 0; j < 6; j++ {
+							tp.Canon(base+j, eff[j])
+						}
+						continue
+					}
 					s.park.armAt("bq.intx", parkSkip-1, parkMode == 2) // hit 0 of THIS transaction is its first block
 					s.park.releaseAll()
 					synctest.Wait()
